@@ -396,6 +396,27 @@ pub fn judge(w: &World, run: &Run, focus: Option<&str>) -> (Verdict, RunInfo) {
                     }
                 }
             }
+            // guard R0 also applies here: if the flattened text does not parse into the same
+            // statements as the files do (parser context dependence, C16), the reference says
+            // nothing about this panic
+            if let RunResult::Returned(ro) = &r.result {
+                if ro.any_syntax {
+                    return (Verdict::Skip("skipped_parser_context"), info);
+                }
+                let flat = m.flat.clone();
+                match m.facts_of(&flat) {
+                    Ok(ff) => {
+                        let got: Vec<(oq3_syntax::SyntaxKind, &str)> =
+                            ff.top.iter().map(|s| (s.kind, &flat[s.start..s.end])).collect();
+                        let want: Vec<(oq3_syntax::SyntaxKind, &str)> =
+                            m.expected_stmts.iter().map(|(k, t)| (*k, t.as_str())).collect();
+                        if got != want {
+                            return (Verdict::Skip("skipped_parser_context"), info);
+                        }
+                    }
+                    Err(_) => return (Verdict::Skip("oracle_parser_panic"), info),
+                }
+            }
             return match r.result {
                 RunResult::Panic(_) => (Verdict::Skip("reference_undefined"), info),
                 _ => (
